@@ -48,6 +48,7 @@ class Cfg:
     fixed_shapes: Tuple[Tuple[Tuple[int, ...], ...], ...] = ()
     setup_call: bool = False  # every node is a setup node and the operation is DAG.setup(<selection>) instead of a call
     distinct_cp: bool = False  # assume pairwise distinct compound priorities; the C06 monitor is then strict
+    failed_before: bool = False  # the executor that runs may have had an earlier run in which a node failed (unmonitored)
     debug_leaf: bool = False  # one leaf may be a debug node, RUN_DEBUG_NODES on; the executed set is read off the executor's graph
     monitors: Tuple[str, ...] = ("C02", "C03", "C04", "C05", "C08", "C09", "C14", "C17", "C01")
     known_c08: bool = True
@@ -452,11 +453,14 @@ def run_sched(cfg: Cfg, c: Ctx) -> Any:
     mon.world = world
 
     warm = [False]
+    warmfail: List[Optional[str]] = [None]
 
     # ---- node functions and the DAG, through the public API
     def make_fn(label: str) -> Any:
         def fn(*args: Any, **kwargs: Any) -> Any:
             if warm[0]:
+                if warmfail[0] == label:
+                    raise RuntimeError("injected failure of the earlier run")
                 return SymVal(vapp("f_" + label, [lift(a) for a in args]))
             if real_schedule is not None:
                 return world.node_body(label, args, kwargs)
@@ -567,6 +571,38 @@ def run_sched(cfg: Cfg, c: Ctx) -> Any:
             call = pipe if sel[0] == "whole" else pipe.executor(**{sel[0] + "_nodes": [ids[sel[1]]]})
     finally:
         twz_cfg.RUN_DEBUG_NODES = saved_run_debug
+    if cfg.failed_before and not cfg.setup_call and c.choose(2, "failed_before"):
+        # the executor that is monitored below already had a run in which a node failed: the second run schedules its
+        # complete selection again, under the same priorities, limit and flags
+        if sel[0] == "whole":
+            twz_cfg.RUN_DEBUG_NODES = dbg is not None
+            try:
+                call = pipe.executor()
+            finally:
+                twz_cfg.RUN_DEBUG_NODES = saved_run_debug
+        warm[0] = True
+        warmfail[0] = labels[c.choose(len(labels), "failed_before_node")]
+        first_failed = False
+        try:
+            w0 = E.World(c, None)
+            w0.deterministic = True
+            twz_cfg.RUN_DEBUG_NODES = dbg is not None
+            with E.Patched(w0):
+                try:
+                    if flavour == "a":
+                        w0.drive(call(c.val("x_failed_before")))
+                    else:
+                        call(c.val("x_failed_before"))
+                except SXControl:
+                    raise
+                except BaseException:
+                    first_failed = True
+        finally:
+            warm[0] = False
+            warmfail[0] = None
+            twz_cfg.RUN_DEBUG_NODES = saved_run_debug
+        c.assume(first_failed)  # (the chosen node was outside the selection or deactivated: an executor that succeeded refuses a second run)
+        c.cover("w_failed_before")
     if dbg is not None:
         # debug rules aside (C13 owns them): which debug nodes accompany a selection is read off the graph
         if sel[0] != "whole":
